@@ -114,12 +114,19 @@ def judge(ctx, q, data, info):
         if not astx.struct_eq(out, exp):
             ctx.violation("differs-from-reference-rewrite:custom-names", f"names={names}: {astx.first_diff(out, exp)} | in: {witness['query'][:300]} | out: {astx.unparse(out)[:300]}", {**witness, "names": names})
         return
+    # what a real query carries besides syntax: the dataset object on its EventDataset() node (uncopyable, identity matters)
+    carried = astx.attach_object(arg, ctx.rnd) if ctx.rnd.random() < 0.4 else None
     try:
         out = change_extension_functions_to_calls(arg)
     except Exception as e:
         ctx.case(key, True)
         ctx.violation(f"exc:{type(e).__name__}", f"{e} | in: {witness['query'][:400]}", witness)
         return
+    if carried is not None:
+        ctx.count("inputs-carrying-an-object-on-a-node")
+        if not astx.find_object(out, carried):
+            ctx.violation("object-on-a-node-not-carried-over", f"the dataset object on a node of the input is not on the result (copied {carried.copied}x) | in: {witness['query'][:300]}", witness)
+            return
     mc = method_calls(q)
     ctx.case(key, nontrivial=len(mc) >= 2 and any(mc))
     exp = refimpl.to_function_form(q)
